@@ -61,6 +61,18 @@ def run(ctx):
     spelled = [respell(h, 0) for h in maxi] + [respell(h, 2) for h in (maxi if not quick else maxi[::3])]
     ctx.cov["histories_respelled"] = len(spelled)
     plain = pmap(do_plain, full + spelled, nproc=14)
+    # the same histories over contents of several stdio / md5 read buffers (the digest of the file on disk is taken in 4096-byte
+    # pieces, the digest of the text in memory in one piece: they have to agree for every length)
+    wl = ip.World(unc, ctx.work.sub("world_large"), large=True)
+
+    def do_plain_large(h):
+        d = ctx.work.sub()
+        tr = [dict(e, wl=True) for e in eng.exec_prefix(wl, d, h)]
+        shutil.rmtree(d, ignore_errors=True)
+        return tr
+    large_h = maxi if not quick else maxi[::2]
+    ctx.cov["histories_over_large_contents"] = len(large_h)
+    plain += pmap(do_plain_large, large_h, nproc=14)
 
     # (2) kill at every file-related syscall of one run, followed by the rest of the history
     cand = [h for h in full if sum(1 for e in h if e["e"] == "Run") >= 2 and len(h) == maxlen]
@@ -128,7 +140,7 @@ def run(ctx):
             what = "%s after history %s: F=%s B=%s M=%s" % (
                 bad, [(x.get("c") or "run(%s%s)" % (x.get("k"), "" if x.get("inj") in (None, "none") else " killed at " + x.get("label", "?")))
                       for x in tr[: tr.index(e) + 1]], e.get("F"), e.get("B"), e.get("M"))
-            ctx.violation(sig, what, {"kind": "inplace", "history": tr[: tr.index(e) + 1]})
+            ctx.violation(sig, what, {"kind": "inplace", "history": tr[: tr.index(e) + 1], "world_large": any(x.get("wl") for x in tr)})
     ctx.cov["traces_validated_against_impl"] = hid - len(ndrift)
     ctx.cov["trace_events"] = len(events)
     ctx.cov["exhaustive"] = True
